@@ -18,7 +18,7 @@ from sim import shapes, pool as simpool
 from sim.core import Rng, close, h64
 
 PROPS = ["C17"]
-BUDGET = {"C17": {"quick": {"runs": 2400, "wall_cap_s": 110}, "thorough": {"runs": 40000, "wall_cap_s": 1500}}}
+BUDGET = {"C17": {"quick": {"runs": 4000, "wall_cap_s": 150}, "thorough": {"runs": 50000, "wall_cap_s": 1800}}}
 RULE = {"C17": "one case = one seeded workload (1-3 shapes, optional surface container, 3-14 queries/edits: evaluation through every "
                "entry point, derivatives, insert/remove/refine, split/decompose, tangent/normal, surface and container tessellation, "
                "voxelisation) executed under the baseline and under 2-5 sampled configuration vectors x simulated pool schedules in "
